@@ -388,7 +388,9 @@ def writer_error_clear_after_report_rule(P, rep, rid):
             rep.check(ok, rid, '%s: clearing of io->writer_error[] at line %s' % (base(f.name), z.line), z.loc(), 'after the report in the same function' if ok else 'io->writer_error[] is cleared in a function of the threaded engine that does not report it first: the write errors that the writer threads recorded since the last report are erased, the failing stripes stay recorded as synced and sync exits 0',
                       function=base(f.name), construct='writer_error cleared without report')
     if n < 1:
-        raise AnalysisBroken('threaded engine: no clearing of io->writer_error[] found')
+        # nothing clears the accumulator in the threaded engine: that is the defect R-C13-6e describes (every error is counted again at
+        # each later stripe), reported here as a failing instance rather than as a lost anchor
+        rep.fail(rid, 'threaded engine: io->writer_error[] is cleared after each report', 'cmdline/io.c', 'no function of the threaded engine clears io->writer_error[]: one write error is reported again at every later stripe', function='io_write_next_thread', construct='writer_error never cleared')
 
 
 TYPE_BITS = {'unsigned char': 8, 'char': 8, 'signed char': 8, 'unsigned short': 16, 'short': 16, 'unsigned int': 32, 'int': 32, 'unsigned': 32,
